@@ -31,7 +31,9 @@ RULE = ('self_sign / sign_req / derive_cert / new_cert with subjects EC P-256/38
         'signer sweeping 0<=actual<=reserved; key names as URI / wire / component list; issuer id as text (valid and malformed URI '
         'components) and as component; start times on year / leap-day / month / day boundaries, years 1000..9999 (and <1000, overflow), '
         'naive, UTC and fixed-offset zones (-12:00..+14:00, odd minutes); durations 0..20 years, negative, overflowing; clock '
-        'readings on 29 Feb and year ends.  Signer histories: ONE signer object (every key type that carries a key locator: ECDSA '
+        'readings on 29 Feb and year ends.  The key bits are handed over as bytes, a bytearray, a memoryview of the whole object, and '
+        'a memoryview that is a proper slice of a larger bytes / bytearray buffer (what parse_certificate(request).content is in the '
+        'request -> issue workflow); the content demanded is the bytes the view covers.  Signer histories: ONE signer object (every key type that carries a key locator: ECDSA '
         'P-256/384/521, RSA, Ed25519, HMAC) is used first (self_sign / sign_req / derive_cert / new_cert, or signing a Data / an '
         'Interest), then its key locator is reconfigured in one of 12 ways (a new URI string / component list / encoded name as '
         'bytes, bytearray, memoryview assigned to key_locator_name; the list it holds edited in place by item assignment, append, '
@@ -138,6 +140,23 @@ def make_signer(keys, spec):
         if label == spec:
             return sg, verify, getattr(sg, 'key_locator_name', None)
     raise KeyError(spec)
+
+
+PUB_FORMS = ['bytes', 'bytes', 'bytearray', 'view', 'view-slice', 'view-slice-bytearray']
+
+
+def pub_as(pub, form):
+    """the same key bits handed over as the buffer kinds a caller has: bytes, a bytearray, a memoryview of the whole
+    object, a memoryview that is a proper SLICE of a larger buffer (what parse_certificate(request).content is)"""
+    if form == 'bytearray':
+        return bytearray(pub)
+    if form == 'view':
+        return memoryview(pub)
+    if form == 'view-slice':
+        return memoryview(b'\x06\xfd\x01\x26' + pub + b'\x16\x03\x1b\x01\x03')[4:4 + len(pub)]
+    if form == 'view-slice-bytearray':
+        return memoryview(bytearray(b'\xaa' * 7 + pub + b'\xbb'))[7:7 + len(pub)]
+    return pub
 
 
 def pub_bits(keys, spec):
@@ -333,7 +352,7 @@ def run_signer_history(ctx, M, keys, label, steps, verbose=False):
 def issue_step(rng, fn, sub=None):
     """a cheap, in-domain issuance (the history is what varies here, not the request)"""
     case = {'fn': fn, 'key_name': ['str', '/sub/KEY/k1'], 'pub': sub or rng.choice(['P-256', 'ed25519', b'pk']),
-            'ts': rng.choice([7, 1790379136352])}
+            'ts': rng.choice([7, 1790379136352]), 'pub_form': rng.choice(PUB_FORMS)}
     if fn in ('self', 'req'):
         case['now'] = [2025, 6, 1, 12, 0, 0, 0, 0]
         if fn == 'req':
@@ -410,7 +429,8 @@ def one_case(ctx, M, keys, case, verbose=False, shared=None, history=None):
     from ndn.encoding import Name, Component, parse_data
     fn = case['fn']
     kn = case['key_name']
-    pub = pub_bits(keys, case['pub'])
+    pub_model = pub_bits(keys, case['pub'])
+    pub = pub_as(pub_model, case.get('pub_form', 'bytes'))      # what the implementation is given
     if shared is None:
         signer, verify, kl_name = make_signer(keys, case['signer'])
     else:
@@ -451,6 +471,7 @@ def one_case(ctx, M, keys, case, verbose=False, shared=None, history=None):
             r = e
     finally:
         S.timestamp, S.datetime = saved
+    pub = pub_model      # the key bits themselves: what the model is given and what the certificate must contain
 
     # ---- the model on the same inputs
     if signer is None:
@@ -727,7 +748,7 @@ ISSUERS = ['ecdsa-P-256', 'ecdsa-P-384', 'ecdsa-P-521', 'rsa', 'ed25519', 'hmac'
 def rand_case(rng, fn=None, signer='?', pub=None):
     fn = fn or rng.choice(['derive', 'derive', 'derive', 'new', 'self', 'req'])
     case = {'fn': fn, 'key_name': rand_key_name(rng), 'pub': pub if pub is not None else rng.choice(SUBJECTS),
-            'signer': rng.choice(ISSUERS) if signer == '?' else signer,
+            'signer': rng.choice(ISSUERS) if signer == '?' else signer, 'pub_form': rng.choice(PUB_FORMS),
             'ts': rng.choice([0, 1, 255, 256, 65535, 65536, 1 << 32, (1 << 32) - 1, 1790379136352, rng.getrandbits(41),
                               (1 << 64) - 1, 1 << 64])}
     if fn == 'self':
